@@ -178,6 +178,10 @@ func vhC15RoundTrip() {
 	if uerr != nil {
 		return
 	}
+	// the caller reuses its buffer afterwards: the decoded message must not depend on it
+	for i := range text {
+		text[i] = '#'
+	}
 	verifAssert(m2.ID.IsSet() == b.idSet && m2.ID.String() == b.id, "C15/roundtrip-id")
 	verifAssert(m2.Type.IsSet() == b.typSet && m2.Type.String() == b.typ, "C15/roundtrip-type")
 	wantRetry := time.Duration(0)
@@ -321,5 +325,54 @@ func vhC15Long() {
 		verifAssert(len(o.events) == 1 && o.events[0].Data == "tail", "C02/long/decoded-by-Read")
 	} else {
 		verifAssert(len(o.events) == 1 && o.events[0].Data == string(b)+"\ntail", "C02/long/decoded-by-Read")
+	}
+}
+
+// C15: a writer that, inside one of its Write calls, encodes another message (a tee or
+// logging writer; also what two goroutines encoding at the same time amount to at the
+// granularity of Write calls). The encoders share no state: both outputs are exact.
+type vhNestWriter struct {
+	buf      []byte
+	calls    int
+	at       int
+	inner    *Message
+	innerOut bytes.Buffer
+	innerN   int64
+	innerErr error
+	done     bool
+}
+
+func (w *vhNestWriter) Write(p []byte) (int, error) {
+	if w.calls == w.at && !w.done {
+		w.done = true
+		w.innerN, w.innerErr = w.inner.WriteTo(&w.innerOut)
+	}
+	w.calls++
+	w.buf = append(w.buf, p...)
+	return len(p), nil
+}
+
+func vhC15Reentrant() {
+	retries := []time.Duration{0, time.Millisecond, 1111 * time.Millisecond, 22 * time.Millisecond, 987654321 * time.Millisecond}
+	mk := func(tag string) *Message {
+		m := &Message{}
+		if verifChoose(tag+".hasdata", 2) == 1 {
+			m.AppendData(verifNondetString(tag+".data", 1))
+		}
+		if verifChoose(tag+".hasid", 2) == 1 {
+			m.ID = ID("i" + tag)
+		}
+		m.Retry = retries[verifChoose(tag+".retry", len(retries))]
+		return m
+	}
+	m1, m2 := mk("a"), mk("b")
+	want1, want2 := m1.String(), m2.String()
+	w := &vhNestWriter{at: verifChoose("at", 5), inner: m2}
+	n, err := m1.WriteTo(w)
+	verifAssert(err == nil && n == int64(len(want1)), "C15/nested/count")
+	verifAssert(string(w.buf) == want1, "C15/nested/outer-encoding-exact")
+	if w.done {
+		verifAssert(w.innerErr == nil && w.innerN == int64(len(want2)) && w.innerOut.String() == want2, "C15/nested/inner-encoding-exact")
+		verifCover("C15/nested/ran")
 	}
 }
